@@ -116,8 +116,8 @@ pub enum Step {
     NextBack,
     /// clone the iterator (Iter / IntoIter only); both copies are then driven to the end
     Fork,
-    Nth(u8),
-    NthBack(u8),
+    Nth(u16),
+    NthBack(u16),
     Dbg,
     /// consume the rest with `count()` / `last()` / `fold` / `rev().collect()`
     Count,
@@ -125,8 +125,8 @@ pub enum Step {
     Fold,
     RevCollect,
     /// consume the rest with `skip(k)` / `step_by(k + 1)` and collect (drains and owning iterators)
-    Skip(u8),
-    StepBy(u8),
+    Skip(u16),
+    StepBy(u16),
     /// consume the rest through internal iteration from the back: `rfold` / `rev().for_each(..)`
     RFold,
     /// `rev().last()` resp. `try_fold`-style `find` from the front (`position`), consuming
